@@ -3,7 +3,7 @@ CONSTANTS QCap = 2 MaxPend = 1 MaxOps = 5
           NoInboundFilter = FALSE NoNullCheck = FALSE AnyoneOpens = FALSE
           RepIds = {1, 2, 3, 4, 5, 6, 7, 8}
           TrackHistory = FALSE FlowCache = "none" HostIps = {"x"} HostPorts = {1}
-          StaleVerdict = "none" HopFollowsPeer = FALSE FlagChoices = {} SignedSrcs = {}
+          StaleVerdict = "none" HopFollowsPeer = FALSE VerdictMemo = "none" FlagChoices = {} SignedSrcs = {}
           SrcSet = {"prev", "port", "other"} DkSet = {"v4", "v6", "dom4", "dom6", "domfail", "null"}
 INVARIANT TypeOK
 INVARIANT EmitOnlyAllowed
@@ -11,3 +11,4 @@ INVARIANT NeverToNull
 INVARIANT OpenedOnlyByPrevHop
 INVARIANT EmitOnlyWhenOpen
 INVARIANT QueueClean
+INVARIANT VerdictByOwnShape
